@@ -145,6 +145,10 @@ func cfgValue(name string, rng *mrand.Rand) any {
 		return map[string]any{"k": map[string]any{"n": []any{"v", 1}}}
 	case "deep_w":
 		return map[string]any{"k": map[string]any{"n": []any{"w", 1}}}
+	case "big_int":
+		return map[string]any{"channel": int64(1096853462215573544)}
+	case "big_str":
+		return map[string]any{"channel": "1096853462215573544"}
 	case "nest_map":
 		return map[string]any{"environment": map[string]any{}, "volumes": []any{"x", []any{}}}
 	case "nest_list":
@@ -536,7 +540,7 @@ func payloadHashes(s map[string]any, R int, rng *mrand.Rand) (signH []string, ve
 			// then under this one - the payload depends on the content and this env only
 			other := map[string]string{"ZZ_OTHER": "o", "A": "other-a", "B": "other-b"}
 			st3 := buildStep(s["c"].(map[string]any), rng)
-			osig, err := signature.Sign(ctx, kp.sign, st3, signature.WithEnv(other))
+			osig, err := signature.Sign(ctx, kp.sign, st3, signature.WithEnv(other), signature.WithLogger(&payloadLogger{}), signature.WithDebugSigning(true)) // (debug logging is an observer too)
 			if err != nil {
 				panic("Sign under another env: " + err.Error())
 			}
